@@ -2066,3 +2066,185 @@ Proof.
   - cbn [map concat] in HFl. rewrite <- HFl. reflexivity.
   - rewrite Hres. destruct (take_size maxsz 0 F). reflexivity.
 Qed.
+
+(* ---------- ReadRaftState in the batched format ---------- *)
+
+Lemma first_in_range_none : forall R lo hi, first_in_range R lo hi = None ->
+  forall x, In x R -> ~ (lo <= e_index x <= hi).
+Proof.
+  induction R as [|e R IH]; intros lo hi H x HI; [contradiction|]. cbn [first_in_range] in H.
+  destruct ((lo <=? e_index e) && (e_index e <=? hi)) eqn:E; [discriminate|].
+  destruct HI as [<-|HI]; [|eauto].
+  intros [A B]. apply andb_false_iff in E. destruct E as [E|E]; [apply N.leb_gt in E | apply N.leb_gt in E]; lia.
+Qed.
+
+Lemma first_in_range_min : forall R pi pt lo hi x, good_from pi pt R -> In x R -> lo <= e_index x <= hi ->
+  exists i, first_in_range R lo hi = Some i /\ lo <= i <= e_index x.
+Proof.
+  induction R as [|e R IH]; intros pi pt lo hi x H HI Hx; [contradiction|].
+  destruct H as (A & B & C). cbn [first_in_range].
+  destruct ((lo <=? e_index e) && (e_index e <=? hi)) eqn:E.
+  - apply andb_true_iff in E. destruct E as [E1 E2]. apply N.leb_le in E1, E2.
+    exists (e_index e). split; [reflexivity|]. destruct HI as [<-|HI]; [lia|].
+    destruct (good_from_in _ _ _ _ C HI). lia.
+  - destruct HI as [<-|HI].
+    + exfalso. apply andb_false_iff in E. destruct E as [E|E]; apply N.leb_gt in E; lia.
+    + eapply IH; eauto.
+Qed.
+
+Lemma first_in_range_some : forall R lo hi i, first_in_range R lo hi = Some i ->
+  exists x, In x R /\ e_index x = i /\ lo <= i <= hi.
+Proof.
+  induction R as [|e R IH]; intros lo hi i H; [discriminate|]. cbn [first_in_range] in H.
+  destruct ((lo <=? e_index e) && (e_index e <=? hi)) eqn:E.
+  - inversion H; subst. apply andb_true_iff in E. destruct E as [E1 E2]. apply N.leb_le in E1, E2.
+    exists e. split; [now left|]. auto.
+  - destruct (IH _ _ _ H) as (x & A & B). exists x. split; [now right | auto].
+Qed.
+
+(* the scan finds the entry right after arg, or a stored entry at arg *)
+Lemma batched_get_range_RB : forall d s n arg, RB d s ->
+  n_marker (s n) <= arg -> arg < n_last (s n) ->
+  exists first, batched_get_range (p_kv d) n arg (n_last (s n)) = Some (first, n_last (s n) - first + 1)
+                /\ arg <= first <= arg + 1 /\ 0 < first.
+Proof.
+  intros d s n arg (HS & HW & H) H1 H2. destruct (H n) as [_ HB HC].
+  set (last := n_last (s n)) in *. unfold batched_get_range.
+  destruct (batch_id_range arg (last + 1)) as [lowid highid] eqn:EBR.
+  assert (Hlow : lowid = batch_id arg).
+  { unfold batch_id_range in EBR. destruct ((last + 1) mod bsz =? 0); now inversion EBR. }
+  (* the entry right after arg *)
+  destruct (contig_nth _ _ (arg + 1) HC) as (y & Y1 & Y2); [unfold last, n_last in *; lia|].
+  destruct (bc_exists _ _ _ _ HB y Y1) as (rawy & Gy). rewrite Y2 in Gy.
+  destruct (bc_all _ _ _ _ HB _ _ Gy) as (Ry1 & Ry2 & Ry3 & Ry4).
+  assert (Yin : In y (restore_if_many rawy)).
+  { assert (In y (bfilter (batch_id (arg + 1)) (n_ents (s n)))) as X by (apply bfilter_in; split; [auto | now rewrite Y2]).
+    rewrite <- Ry4 in X. apply filter_In in X. tauto. }
+  assert (Hhigh : batch_id (arg + 1) < highid).
+  { unfold batch_id_range in EBR. destruct ((last + 1) mod bsz =? 0) eqn:EM.
+    - apply N.eqb_eq in EM. inversion EBR. subst. apply aligned_spec; auto. lia.
+    - inversion EBR. subst. pose proof (batch_id_mono (arg + 1) (last + 1) ltac:(lia)). lia. }
+  remember (N.to_nat (highid - lowid)) as cnt eqn:Ecnt.
+  assert (Hc : highid = lowid + N.of_nat cnt).
+  { pose proof (batch_id_mono arg (arg + 1) ltac:(lia)). lia. }
+  clear Ecnt.
+  unfold KBatch. rewrite Hc, range_sparse by auto.
+  (* the scan result *)
+  assert (HSCAN : exists first, range_scan (sparse (p_kv d) c09_tag_entry_batch (fst n) (snd n) lowid cnt) arg last = Some first
+                  /\ arg <= first <= arg + 1 /\ 0 < first).
+  { (* the batch of arg + 1 answers arg + 1 unless an entry at arg is stored before it *)
+    assert (HY : forall i, first_in_range (restore_if_many rawy) arg last = Some i -> arg <= i <= arg + 1).
+    { intros i X. destruct (first_in_range_min _ _ _ arg last y Ry2 Yin ltac:(lia)) as (i' & X' & Hi').
+      rewrite X in X'. inversion X'. subst. lia. }
+    assert (HY2 : exists i, first_in_range (restore_if_many rawy) arg last = Some i).
+    { destruct (first_in_range_min _ _ _ arg last y Ry2 Yin ltac:(lia)) as (i' & X' & _). eauto. }
+    destruct (restore_head rawy Ry1) as (ey & ry & ry' & -> & RRy).
+    assert (Hpos : forall i, arg <= i -> i <= arg + 1 -> (arg = 0 -> i <> 0) -> 0 < i) by (intros; lia).
+    destruct (N.eq_dec (batch_id (arg + 1)) lowid) as [Eq|Ne].
+    - (* arg + 1 lives in the first scanned batch *)
+      destruct cnt as [|c]; [lia|]. cbn [sparse].
+      change (mkKey c09_tag_entry_batch (fst n) (snd n) lowid) with (KBatch n lowid).
+      rewrite <- Eq, Gy. cbn [app range_scan]. destruct HY2 as (i & Hi). rewrite Hi.
+      exists i. split; [reflexivity|]. pose proof (HY i Hi). split; [lia|].
+      destruct (first_in_range_some _ _ _ _ Hi) as (x & X1 & X2 & X3).
+      destruct (good_from_in _ _ _ _ Ry2 X1). lia.
+    - (* arg + 1 starts the next batch *)
+      assert (batch_id (arg + 1) = lowid + 1) as Eq1.
+      { pose proof (batch_id_mono arg (arg + 1) ltac:(lia)). rewrite Hlow in *. bid. lia. }
+      destruct cnt as [|[|c]]; [lia | lia |]. cbn [sparse].
+      change (mkKey c09_tag_entry_batch (fst n) (snd n) lowid) with (KBatch n lowid).
+      change (mkKey c09_tag_entry_batch (fst n) (snd n) (lowid + 1)) with (KBatch n (lowid + 1)).
+      rewrite <- Eq1, Gy.
+      assert (HNext : forall tl, range_scan ([(KBatch n (batch_id (arg + 1)), VBatch (ey :: ry))] ++ tl) arg last = Some (arg + 1)).
+      { intros tl. cbn [app range_scan]. destruct HY2 as (i & Hi). rewrite Hi. f_equal.
+        pose proof (HY i Hi). destruct (first_in_range_some _ _ _ _ Hi) as (x & X1 & X2 & X3).
+        destruct (Ry3 x X1) as (A1 & _). rewrite Eq1 in A1. rewrite Hlow in *. bid. lia. }
+      destruct (kv_get (p_kv d) (KBatch n lowid)) as [v0|] eqn:G0.
+      + destruct (bc_typed _ _ _ _ HB _ _ G0) as (raw0 & ->).
+        destruct (bc_all _ _ _ _ HB _ _ G0) as (R01 & R02 & R03 & R04).
+        destruct (restore_head raw0 R01) as (e0 & r0 & r0' & -> & RR0).
+        cbn [app range_scan].
+        destruct (first_in_range (restore_if_many (e0 :: r0)) arg last) as [i|] eqn:F0.
+        * exists i. split; [reflexivity|].
+          destruct (first_in_range_some _ _ _ _ F0) as (x & X1 & X2 & X3).
+          destruct (R03 x X1) as (A1 & _). destruct (good_from_in _ _ _ _ R02 X1).
+          rewrite Hlow in *. split; [|lia]. bid. lia.
+        * exists (arg + 1). split; [apply HNext | lia].
+      + cbn [app]. exists (arg + 1). split; [apply HNext | lia]. }
+  destruct HSCAN as (first & -> & Hf & Hp). exists first.
+  assert (first =? 0 = false) as -> by (apply N.eqb_neq; lia). cbn [andb].
+  assert (0 <? first = true) as -> by (apply N.ltb_lt; lia). auto.
+Qed.
+
+Lemma read_state_refines_b : forall d s n arg, RB d s ->
+  spec_wf_query s (QState n arg) = true ->
+  canon (QState n arg) (b_read_raft_state d n arg) = spec_answer s (QState n arg).
+Proof.
+  intros d s n arg HRB Hwf. pose proof (RB_R _ _ HRB) as HR.
+  cbn [spec_wf_query] in Hwf. apply andb_true_iff in Hwf.
+  destruct Hwf as [W1 W2]. apply N.leb_le in W1, W2.
+  cbn [spec_answer]. unfold b_read_raft_state, p_read_raft_state_with.
+  rewrite (get_state_R d (sstrip s) n HR). change (n_st (sstrip s n)) with (n_st (s n)).
+  destruct (get_max_index_R d (sstrip s) n HR) as [HM|[HM HL]]; rewrite HM;
+    unfold sstrip in *; rewrite n_last_strip in *.
+  - destruct (arg =? n_last (s n)) eqn:E.
+    + apply N.eqb_eq in E. destruct (n_st (s n)); cbn [canon]; auto.
+      assert (arg <? n_last (s n) = false) as -> by (apply N.ltb_ge; lia). reflexivity.
+    + apply N.eqb_neq in E.
+      destruct (batched_get_range_RB d s n arg HRB W1 ltac:(lia)) as (first & -> & Hf & Hp).
+      destruct (n_st (s n)); cbn [canon]; auto.
+      assert (arg <? n_last (s n) = true) as -> by (apply N.ltb_lt; lia).
+      assert (0 <? n_last (s n) - first + 1 = true) as -> by (apply N.ltb_lt; lia).
+      cbn [andb]. destruct (first <? arg + 1) eqn:X.
+      * apply N.ltb_lt in X. assert (first = arg) by lia. subst first.
+        replace (arg + 1 - arg) with 1 by lia.
+        assert (n_last (s n) - arg + 1 <=? 1 = false) as -> by (apply N.leb_gt; lia).
+        f_equal. lia.
+      * apply N.ltb_ge in X. assert (first = arg + 1) by lia. subst first.
+        assert (n_last (s n) - (arg + 1) + 1 =? 0 = false) as -> by (apply N.eqb_neq; lia).
+        f_equal. lia.
+  - destruct (n_st (s n)); cbn [canon]; auto.
+    assert (arg <? n_last (s n) = false) as -> by (apply N.ltb_ge; lia). reflexivity.
+Qed.
+
+(* ---------- the refinement theorem for the batched format ---------- *)
+
+Lemma batched_query_RB : forall d s q, RB d s ->
+  RB (snd (batched_query d q)) s /\
+  (spec_wf_query s q = true -> batched_observe d q = spec_answer s q).
+Proof.
+  intros d s q HR. unfold batched_observe. destruct q; cbn [batched_query fst snd].
+  - split; auto. intros. now apply iterate_refines_b.
+  - split; auto. intros. now apply read_state_refines_b.
+  - destruct (get_snapshot_RB d s n HR). split; auto.
+Qed.
+
+Lemma batched_run_RB : forall l d s, RB d s -> wf_ops s (muts l) = true ->
+  exists d', fold_left batched_pstep l (Some d) = Some d' /\ RB d' (spec_run s (muts l)).
+Proof.
+  induction l as [|p l IH]; intros d s HR Hwf.
+  - exists d. split; auto.
+  - destruct p as [o|q].
+    + cbn [muts flat_map app] in *. fold (muts l) in *. cbn [wf_ops] in Hwf.
+      apply andb_true_iff in Hwf. destruct Hwf as [W1 W2].
+      destruct (batched_step_RB d s o HR W1) as (d1 & E1 & R1).
+      cbn [fold_left batched_pstep]. rewrite E1. unfold spec_run. cbn [fold_left]. now apply IH.
+    + cbn [muts flat_map app] in *. fold (muts l) in *. cbn [fold_left batched_pstep].
+      apply IH; auto. now apply batched_query_RB.
+Qed.
+
+Theorem batched_refines_proved : forall l q,
+  wf_ops spec_init (muts l) = true ->
+  spec_wf_query (spec_run spec_init (muts l)) q = true ->
+  exists d, batched_prun l = Some d /\
+            batched_observe d q = spec_answer (spec_run spec_init (muts l)) q.
+Proof.
+  intros l q Hwf Hq. destruct (batched_run_RB l pdb_init spec_init RB_init Hwf) as (d & E & HR).
+  exists d. split; auto. now apply (batched_query_RB d _ q HR).
+Qed.
+
+Theorem batched_no_panic_proved : forall l, wf_ops spec_init (muts l) = true -> batched_prun l <> None.
+Proof.
+  intros l Hwf. destruct (batched_run_RB l pdb_init spec_init RB_init Hwf) as (d & E & _).
+  unfold batched_prun. rewrite E. discriminate.
+Qed.
